@@ -31,32 +31,48 @@ def span_of(page, node):
     return pre, post
 
 
-def deletes_only_occurrences(old, new, s):
-    """new is old with one or more pairwise disjoint occurrences of s deleted and nothing else changed (which of several
-    overlapping occurrences are taken is not specified)"""
-    import functools
-    import sys
-    sys.setrecursionlimit(max(sys.getrecursionlimit(), 20000))
-    n, m, k = len(old), len(new), len(s)
-    if not (k and m < n and (n - m) % k == 0):
+def replaces_only_occurrences(old, new, s, r):
+    """new is old with one or more pairwise disjoint occurrences of s replaced by r and nothing else changed
+    (which occurrences are taken is not specified); trivially true when s == r"""
+    n, m, k, kr = len(old), len(new), len(s), len(r)
+    if not k:
         return False
+    if s == r:
+        return old == new
+    # forward reachability over (position in old, position in new, some occurrence replaced)
+    frontier = {(0, 0, False)}
+    seen = set(frontier)
+    while frontier:
+        nxt = set()
+        for (a, b, used) in frontier:
+            if a == n and b == m and used:
+                return True
+            if a < n and b < m and old[a] == new[b]:
+                # run ahead while the characters agree and no occurrence starts
+                a2, b2 = a + 1, b + 1
+                st = (a2, b2, used)
+                if st not in seen:
+                    seen.add(st)
+                    nxt.add(st)
+            if old.startswith(s, a) and new.startswith(r, b):
+                st = (a + k, b + kr, True)
+                if st not in seen:
+                    seen.add(st)
+                    nxt.add(st)
+        frontier = nxt
+    return False
 
-    @functools.lru_cache(maxsize=None)
-    def ok(i, j):
-        while i < n and j < m and old[i] == new[j] and not old.startswith(s, i):
-            i += 1
-            j += 1
-        if i == n:
-            return j == m
-        if j < m and old[i] == new[j] and ok(i + 1, j + 1):
-            return True
-        return old.startswith(s, i) and ok(i + k, j)
-    return ok(0, 0)
+
+def deletes_only_occurrences(old, new, s):
+    return replaces_only_occurrences(old, new, s, "")
 
 
 def make_value(rng, tag):
     import mwparserfromhell as M
     k = rng.random()
+    if k < 0.08:
+        v = rng.choice([None, b"by%s" % tag.encode(), ["l%s " % tag, "{{m%s}}" % tag], ()])
+        return v, {type(None): "", bytes: (v.decode() if isinstance(v, bytes) else ""), list: ("".join(v) if isinstance(v, list) else ""), tuple: ""}[type(v)]
     if k < 0.35:
         v = rng.choice(["NEW%s" % tag, "{{n%s}}" % tag, "[[l%s]] z" % tag, "a{{b%s}}c" % tag, ""])
         return v, v
@@ -274,11 +290,28 @@ def one_case(seed):
                     s = "".join(str(x) for x in holder.nodes[a0:a0 + rng.randint(2, 3)])
             if not s or MARK in s:
                 continue
-            op = rng.choice(["remove", "insert_before"])
+            if rng.random() < 0.3:
+                # a piece of one Text node (the inexact path: the text around it is re-parsed)
+                texts = [x for x in page.filter_text() if len(str(x)) >= 3]
+                if texts:
+                    tn = str(rng.choice(texts))
+                    a1 = rng.randint(0, len(tn) - 2)
+                    s = tn[a1:rng.randint(a1 + 2, len(tn))]
+            op = rng.choice(["remove", "insert_before", "replace", "insert_after"])
+            whole_node = any(str(x) == s for x in nodes)
+            overlaps_itself = s in (s + s)[1:-1]
+            if op in ("replace", "insert_after") and not (
+                    s.strip() and not overlaps_itself and
+                    (whole_node or (old.count(s) == 1 and not any(ch in s for ch in "{}[]<>|=&'\n")))):
+                op = "remove"
             ops_done.append((op, "string", s[:30]))
             try:
                 if op == "remove":
                     page.remove(s)
+                elif op == "replace":
+                    page.replace(s, val)
+                elif op == "insert_after":
+                    page.insert_after(s, val)
                 else:
                     page.insert_before(s, "{{ZZ%d}}" % step)
             except ValueError:
@@ -286,13 +319,48 @@ def one_case(seed):
             except Exception as e:  # noqa: BLE001
                 return text, ops_done, "%s(%r) raised %r" % (op, s[:40], e), nested
             new = str(page)
-            if op == "remove":
+            if op == "replace":
+                if not replaces_only_occurrences(old, new, s, vtext):
+                    return text, ops_done, "replace(%r, %r) changed something other than occurrences of the string: %r -> %r" % (s[:30], vtext[:30], old[:120], new[:120]), nested
+            elif op == "insert_after":
+                if not replaces_only_occurrences(old, new, s, s + vtext):
+                    return text, ops_done, "insert_after(%r, %r) did not insert exactly after occurrences of the string: %r -> %r" % (s[:30], vtext[:30], old[:120], new[:120]), nested
+            elif op == "remove":
                 if not deletes_only_occurrences(old, new, s):
                     return text, ops_done, "remove(%r) changed something other than occurrences of the string: %r -> %r" % (s[:40], old[:100], new[:100]), nested
             else:
                 z = "{{ZZ%d}}" % step
                 if not (new.count(z) >= 1 and new.replace(z, "") == old and new.count(z + s) == new.count(z)):
                     return text, ops_done, "insert_before(%r) did not insert exactly before occurrences of the string" % (s[:40],), nested
+        allnodes = page.filter()
+        if len({id(x) for x in allnodes}) != len(allnodes):
+            return text, ops_done, "after %r the same node object occurs at two places of the tree" % (ops_done[-1:],), nested
+    # appending a live view of the page (or the page) to the page adds its text once and terminates
+    if secs and rng.random() < 0.5:
+        v = rng.choice(secs + [page])
+        before, vt = str(page), str(v)
+        ops_done.append(("append", "view of the same page", vt[:30]))
+        page.append(v)
+        if str(page) != before + vt:
+            return text, ops_done, "append(view): text is %r, expected %r" % (str(page)[:120], (before + vt)[:120]), nested
+    # a node whose enclosing Wikicode renders empty is still a node of the tree
+    tns = [x for x in page.filter_text() if page.get_ancestors(x)]
+    if tns and rng.random() < 0.3:
+        tn = rng.choice(tns)
+        par = page.get_parent(tn)
+        holder = [cc for cc in par.__children__() if any(y is tn for y in cc.nodes)]
+        if holder and len(holder[0].nodes) == 1:
+            tn.value = ""
+            ops_done.append(("insert_before", "emptied text node"))
+            if not any(y is tn for y in page.filter()):
+                pass        # an emptied closing tag is no longer a child of its tag (Tag.__children__, C09): not a node of the tree
+            elif not page.contains(tn):
+                return text, ops_done, "contains() is false for a node of the tree whose enclosing Wikicode renders empty", nested
+            try:
+                if any(y is tn for y in page.filter()):
+                    page.insert_before(tn, "Q")
+            except ValueError:
+                return text, ops_done, "insert_before raised ValueError for a node of the tree whose enclosing Wikicode renders empty", nested
     return text, ops_done, None, nested
 
 
@@ -308,10 +376,11 @@ def _work(seeds):
 
 def run(tier, seed):
     c = vlib.Check("C08", tier, seed, "proof")
+    vlib.pure_python_parser()
     c.prove("C08.v")
     n = 8000 if tier == "quick" else 300000
     seeds = [seed * 23000009 + i for i in range(n)]
-    res = vlib.robust_map(_work, seeds, chunk=200, timeout=240)
+    res = vlib.robust_map(_work, seeds, chunk=100, timeout=45)
     nontrivial = set()
     kinds = {}
     for s, r in zip(seeds, res):
